@@ -2,7 +2,7 @@
 import os
 import sys
 
-if os.environ.get("PYTHONHASHSEED") != "0":
+if os.environ.get("PYTHONHASHSEED") != "0" and not os.environ.get("VERIF_KEEP_HASHSEED"):
     os.environ["PYTHONHASHSEED"] = "0"
     os.execv(sys.executable, [sys.executable] + sys.argv)
 
